@@ -302,14 +302,30 @@ def main(run):
         f, c = cli_pairs[k]
         base = os.path.join(root, "p%d" % k)
         write_world(base, f)
-        rc1, so1, se1 = run_cli(["--config", os.path.join(base, "tackler.toml")] + cli_args(c, base))
+        use_out = (k % 2 == 0)          # every other pair writes files: exports exist only then
+        def outargs(b):
+            return ["--output.dir", os.path.join(b, "out"), "--output.prefix", "p"] if use_out else []
+        def outfiles(b):
+            d = os.path.join(b, "out")
+            return {f: open(os.path.join(d, f), "rb").read().decode("utf-8", "replace") for f in sorted(os.listdir(d))} if os.path.isdir(d) else {}
+        if use_out:
+            os.makedirs(os.path.join(base, "out"))
+        rc1, so1, se1 = run_cli(["--config", os.path.join(base, "tackler.toml")] + cli_args(c, base) + outargs(base))
+        files1 = outfiles(base)
         fm = merged(f, c)
         base2 = os.path.join(root, "q%d" % k)
         write_world(base2, fm)
         if fm["db"] == "cli":
             shutil.copyfile(os.path.join(base2, "prices2.db"), os.path.join(base2, "prices.db"))
         rest = ["--price.before", c["before"]] if c["before"] is not None else []
-        rc2, so2, se2 = run_cli(["--config", os.path.join(base2, "tackler.toml")] + rest)
+        if use_out:
+            os.makedirs(os.path.join(base2, "out"))
+        rc2, so2, se2 = run_cli(["--config", os.path.join(base2, "tackler.toml")] + rest + outargs(base2))
+        files2 = outfiles(base2)
+        # announced paths differ by construction: compare the file CONTENTS, and stdout without the paths
+        strip = lambda t, b: t.replace(b, "<dir>")
+        so1 = strip(so1, base) + "".join("\n== %s ==\n%s" % kv for kv in files1.items())
+        so2 = strip(so2, base2) + "".join("\n== %s ==\n%s" % kv for kv in files2.items())
         return k, (rc1, so1, se1), (rc2, so2, se2)
 
     try:
